@@ -22,6 +22,16 @@ Print Assumptions C10_raw_equiv.
 
 (* the precondition is necessary: a positive NaN is kept by the compact list and dropped by the
    raw one, which is why the checks also scan every exported peak *)
+(* ... and so does `len()` after the zeros are removed (it did not before the compact list's
+   stale length was fixed: the seed S-C10-4 turned that latent difference into a result difference) *)
+Theorem C10_raw_len_equiv : forall pushes : list Z,
+  forallb push_ok pushes = true -> Z.of_nat (length pushes) < SIGN ->
+  let s := fst (StrainsVec.run sv_empty (map OPush pushes)) in
+  let r := fold_left raw_push pushes [] in
+  len (retain_non_zero_and_sort s) = Z.of_nat (length (raw_sort_desc (raw_retain_non_zero r))).
+Proof. exact raw_len_equiv. Qed.
+Print Assumptions C10_raw_len_equiv.
+
 Theorem C10_precondition_necessary :
   exists b, 0 <= b < TWO64 /\ push_ok b = false /\
     transmute_into_vec (retain_non_zero_and_sort (fst (push sv_empty b)))
